@@ -189,12 +189,16 @@ pub fn run(ctx: &Ctx) -> Report {
     let thorough = ctx.tier.thorough();
     // (1) capacities x lengths x fills
     let caps = [0usize, 1, 3, 4, 5, 44, 45, 64, 128];
-    let max_len = 140usize;
-    let n1 = (caps.len() * (max_len + 1)) as u64 * NFILLS;
+    // every length up to 1100 (beyond four times 256), and the lengths around 2^16 and 2^20 (a length that is
+    // right only modulo a power of two is still too long)
+    let max_len = 1100usize;
+    let lens: Vec<usize> = (0..=max_len).chain(65_480..=65_600).chain(1_048_560..=1_048_620).collect();
+    let n_len = lens.len() as u64;
+    let n1 = caps.len() as u64 * n_len * NFILLS;
     let mut st = par_sweep(n1, |i, st| {
         let fill = (i % NFILLS) as usize;
-        let len = ((i / NFILLS) % (max_len as u64 + 1)) as usize;
-        let m = caps[(i / NFILLS / (max_len as u64 + 1)) as usize];
+        let len = lens[((i / NFILLS) % n_len) as usize];
+        let m = caps[(i / NFILLS / n_len) as usize];
         let s = secret(len, fill);
         check_capacity(i, m, &s, st);
         st.sample(i, n1, || json!({"capacity": m, "secret_len": len, "fill": fill}));
@@ -300,7 +304,7 @@ pub fn run(ctx: &Ctx) -> Report {
     Report {
         stats: st,
         rule: format!(
-            "(1) capacities {{0,1,3,4,5,44,45,64,128}} x every secret length 0..={} x 7 fills (ASCII, mixed, multi-byte UTF-8, trailing NUL, trailing newline, leading/trailing blank and tab, trailing no-break space): accepted iff capacity >= 4 and length <= capacity-4, never a panic; (2) every accepted length 0..=40 x 7 fills x {} special dates (years 1/999/1000/9999, every 29 Feb 1896-2104) x 36 (region, service) pairs over {{empty, us-east-1, non-ASCII, 1000 bytes, with '/', with NUL}}: read-back of the secret, the four chain keys and all six shortcut derivations compared with the reference HMAC chain; (3) every calendar date {}-01-01..{}-12-31; (4) every sequence of 1..{} derivations on one thread over 12 secrets that are prefixes / NUL-extensions / case variants of one another x 2 dates, each judged alone. states = distinct reference signing keys; non-trivial = distinct inputs",
+            "(1) capacities {{0,1,3,4,5,44,45,64,128}} x every secret length 0..={} and the lengths 65480..65600 and 1048560..1048620 x 7 fills (ASCII, mixed, multi-byte UTF-8, trailing NUL, trailing newline, leading/trailing blank and tab, trailing no-break space): accepted iff capacity >= 4 and length <= capacity-4, never a panic; (2) every accepted length 0..=40 x 7 fills x {} special dates (years 1/999/1000/9999, every 29 Feb 1896-2104) x 36 (region, service) pairs over {{empty, us-east-1, non-ASCII, 1000 bytes, with '/', with NUL}}: read-back of the secret, the four chain keys and all six shortcut derivations compared with the reference HMAC chain; (3) every calendar date {}-01-01..{}-12-31; (4) every sequence of 1..{} derivations on one thread over 12 secrets that are prefixes / NUL-extensions / case variants of one another x 2 dates, each judged alone. states = distinct reference signing keys; non-trivial = distinct inputs",
             max_len, nd, y0, y1, depth
         ),
         bounds: json!({"max_secret_len": max_len, "dates_from_year": y0, "dates_to_year": y1}),
